@@ -1,6 +1,7 @@
 import MdkVerif.Model.Client
 import MdkVerif.Proofs.Client
 import MdkVerif.Props.C06Wrap
+import MdkVerif.Props.C06Ffi
 /-
   C06 — a refused event has no effect (the frame part; absence of panics is a runtime fact that the
   harness searches for, totality of the model is NOT presented as a no-panic proof).
@@ -146,5 +147,118 @@ theorem wrap_no_panic_full_false : ¬ C06Wrap.wrap_no_panic_full := C06Wrap.wrap
 theorem wrap_panic_repeats : type_of% @C06Wrap.wrap_panic_repeats := @C06Wrap.wrap_panic_repeats
 theorem wrap_no_panic_partial : type_of% @C06Wrap.wrap_no_panic_partial := @C06Wrap.wrap_no_panic_partial
 theorem wrap_no_panic_of_guard : type_of% @C06Wrap.wrap_no_panic_of_guard := @C06Wrap.wrap_no_panic_of_guard
+
+/-! ### first sentence, binding layer: the parse helpers of crates/mdk-uniffi (proved in Props/C06Ffi.lean over
+    Model/Ffi.lean; restated here so that this file lists every C06 theorem and `./check C06` audits them) -/
+section Ffi
+open MdkVerif.Ffi MdkVerif.Codec
+
+theorem hex_decode_total (s : Bytes) :
+    (∃ b, hexDecode s = .ok b ∧ s.length = 2 * b.length ∧ isBytes b = true ∧ hexEnc b = s.map lowerC) ∨
+    (hexDecode s = .error .oddLength ∧ s.length % 2 = 1) ∨
+    (∃ c k, hexDecode s = .error (.invalidChar c k) ∧ s.length % 2 = 0 ∧ s[k]? = some c ∧ hexVal c = none ∧
+      ∀ j, j < k → ∃ d, s[j]? = some d ∧ (hexVal d).isSome = true) :=
+  C06Ffi.hex_decode_total s
+
+theorem hex_round_trip :
+    (∀ b : Bytes, isBytes b = true → hexDecode (hexEnc b) = .ok b) ∧
+    (∀ s b : Bytes, hexDecode s = .ok b → hexEnc b = s.map lowerC) :=
+  C06Ffi.hex_round_trip
+
+theorem hex_decode_agrees_with_codec (s b : Bytes) : hexDecode s = .ok b ↔ hexDec s = some b :=
+  C06Ffi.hex_decode_agrees_with_codec s b
+
+theorem hex_case_insensitive (s b : Bytes) (h : hexDecode s = .ok b) : hexDecode (s.map upperC) = .ok b :=
+  C06Ffi.hex_case_insensitive s b h
+
+theorem parse_group_id_accept_iff (s : Bytes) :
+    (∃ b, parseGroupId s = .ok b) ↔ s.length % 2 = 0 ∧ ∀ c ∈ s, isHexChar c = true :=
+  C06Ffi.parse_group_id_accept_iff s
+
+theorem group_id_any_length_fact : Generated.ffiGroupIdAnyLength = true :=
+  C06Ffi.group_id_any_length_fact
+
+theorem decodeToSlice_accept_iff (n : Nat) (s : Bytes) :
+    (∃ b, decodeToSlice n s = .ok b) ↔ s.length = 2 * n ∧ ∀ c ∈ s, isHexChar c = true :=
+  C06Ffi.decodeToSlice_accept_iff n s
+
+theorem decodeToSlice_value (n : Nat) (s b : Bytes) (h : decodeToSlice n s = .ok b) :
+    b.length = n ∧ isBytes b = true ∧ hexEnc b = s.map lowerC :=
+  C06Ffi.decodeToSlice_value n s b h
+
+theorem decodeToSlice_errors (n : Nat) (s : Bytes) :
+    (s.length % 2 = 1 → decodeToSlice n s = .error .oddLength) ∧
+    (s.length % 2 = 0 → s.length ≠ 2 * n → decodeToSlice n s = .error .invalidStringLength) ∧
+    (s.length = 2 * n → ∀ e, decodeToSlice n s = .error e →
+      ∃ c k, e = .invalidChar c k ∧ s[k]? = some c ∧ hexVal c = none ∧ ∀ j, j < k → ∃ d, s[j]? = some d ∧ (hexVal d).isSome = true) :=
+  C06Ffi.decodeToSlice_errors n s
+
+theorem parse_event_id_accept_iff (s : Bytes) :
+    (∃ b, parseEventId s = .ok b) ↔ s.length = 64 ∧ ∀ c ∈ s, isHexChar c = true :=
+  C06Ffi.parse_event_id_accept_iff s
+
+theorem parse_event_id_value (s b : Bytes) (h : parseEventId s = .ok b) :
+    b.length = 32 ∧ isBytes b = true ∧ hexEnc b = s.map lowerC :=
+  C06Ffi.parse_event_id_value s b h
+
+theorem parse_public_key_accept_iff (s : Bytes) :
+    (∃ b, parsePublicKey s = .ok b) ↔ s.length = 64 ∧ ∀ c ∈ s, isHexChar c = true :=
+  C06Ffi.parse_public_key_accept_iff s
+
+theorem parse_public_key_value (s b : Bytes) (h : parsePublicKey s = .ok b) :
+    b.length = 32 ∧ isBytes b = true ∧ hexEnc b = s.map lowerC :=
+  C06Ffi.parse_public_key_value s b h
+
+theorem public_key_not_checked_against_curve :
+    parsePublicKey (List.replicate 64 48) = .ok (List.replicate 32 0) :=
+  C06Ffi.public_key_not_checked_against_curve
+
+theorem sort_order_accept_iff (s : Bytes) (o : Nat) :
+    parseSortOrder (some s) = .ok (some o) ↔ (s, o) ∈ Generated.ffiSortOrderTable :=
+  C06Ffi.sort_order_accept_iff s o
+
+theorem sort_order_none : parseSortOrder none = .ok none ∧ ∀ s, parseSortOrder (some s) ≠ .ok none :=
+  C06Ffi.sort_order_none
+
+theorem parse_tags_accept_iff (ts ts' : List (List Bytes)) :
+    parseTags ts = .ok ts' ↔ (∀ t ∈ ts, t ≠ []) ∧ ts' = ts :=
+  C06Ffi.parse_tags_accept_iff ts ts'
+
+theorem vec_to_array_accept_iff (n : Nat) (o : Option Nat) :
+    (∃ r, vecToArray n o = .ok r) ↔ (o = none ∨ o = some n) :=
+  C06Ffi.vec_to_array_accept_iff n o
+
+theorem state_tables_round_trip :
+    ((∀ v s, welcomeStateAsStr v = some s → welcomeStateFromStr s = some v) ∧
+     (∀ s v, welcomeStateFromStr s = some v → welcomeStateAsStr v = some s)) ∧
+    ((∀ v s, messageStateAsStr v = some s → messageStateFromStr s = some v) ∧
+     (∀ s v, messageStateFromStr s = some v → messageStateAsStr v = some s)) ∧
+    ((∀ v s, groupStateAsStr v = some s → groupStateFromStr s = some v) ∧
+     (∀ s v, groupStateFromStr s = some v → groupStateAsStr v = some s)) :=
+  C06Ffi.state_tables_round_trip
+
+theorem state_tables_complete :
+    (∀ v, v < Generated.welcomeStateVariants → (welcomeStateAsStr v).isSome = true) ∧
+    (∀ v, v < Generated.messageStateVariants → (messageStateAsStr v).isSome = true) ∧
+    (∀ v, v < Generated.groupStateVariants → (groupStateAsStr v).isSome = true) :=
+  C06Ffi.state_tables_complete
+
+theorem plans_follow_source (m : Method) : lookupPlan m.name = some (planCodes (plan m)) :=
+  C06Ffi.plans_follow_source m
+
+theorem welcome_plan_follows_source :
+    lookupPlan [119, 101, 108, 99, 111, 109, 101, 95, 102, 114, 111, 109, 95, 117, 110, 105, 102, 102, 105] = some (planCodes welcomePlan) :=
+  C06Ffi.welcome_plan_follows_source
+
+theorem every_export_modelled :
+    ∀ p ∈ Generated.ffiPlans, p.1 = [119, 101, 108, 99, 111, 109, 101, 95, 102, 114, 111, 109, 95, 117, 110, 105, 102, 102, 105] ∨
+      Method.all.any (fun m => m.name == p.1) = true :=
+  C06Ffi.every_export_modelled
+
+theorem first_refusal_wins (l : List (Stage × V3)) (h : ∀ p ∈ l, p.2 ≠ .unk) :
+    alts l = [match l.find? (fun p => p.2 = .rej) with | some p => .refuse p.1 | none => .past] :=
+  C06Ffi.first_refusal_wins l h
+
+end Ffi
 
 end MdkVerif.Props.C06
